@@ -24,7 +24,7 @@ CONSTANTS FragSet,      \* name of the fragment set to use
           MaxFrags,     \* bound on the number of fragments chosen (R1); large for R2
           MaxStack, MaxWindow, MaxSpec, MaxToksSinceCk,
           MaxCalls,     \* bound on the number of open calls (ExpectSymbol RPAREN modes) and of open string expressions
-          Emit1         \* BOOLEAN: print REPLAY lines
+          Emit1         \* 0: nothing printed; n > 0: REPLAY lines for states with exactly n unread fragments
 
 VARIABLES T,      \* the text chosen so far: [cs, cc]
           fends,  \* end positions of the fragments chosen so far
@@ -240,10 +240,10 @@ Progress == [][(phase = "lex" /\ phase' = "lex" /\ S' # S) => ~(S'.pos = S.pos /
 
 \* ---- transition cover: one line per distinct state (BFS: a shortest input reaching it)
 Cover ==
-  ~Emit1 \/ phase # "lex" \/ Eof(T, S.pos) \/ Len(WinFrags) # 1 \/ S.ops = <<>> \/
+  Emit1 = 0 \/ phase # "lex" \/ Eof(T, S.pos) \/ Len(WinFrags) # Emit1 \/ S.ops = <<>> \/
   PrintT(<<"REPLAY", ToJson([cs |-> T.cs, cc |-> T.cc])>>)
 \* every (configuration, next fragment) pair: the state right after a step, one fragment unread
 CoverAll ==
-  ~Emit1 \/ phase # "lex" \/ Eof(T, S.pos) \/ Len(WinFrags) # 1 \/
+  Emit1 = 0 \/ phase # "lex" \/ Eof(T, S.pos) \/ Len(WinFrags) # Emit1 \/
   PrintT(<<"REPLAY", ToJson([cs |-> T.cs, cc |-> T.cc])>>)
 =============================================================================
